@@ -3,6 +3,54 @@ from pyvc.report import Report
 from pyvc.runner import run_contracts
 
 
+def math_function_folds(rep, tier, seed):
+    """Bounded stand-in for utils.is_constant's math-function branch (not within the verifier's reach: it walks astroid nodes):
+    a call of sin / cos / tan / asin / acos / atan / atan2 / sqrt / log / exp on constants is folded to the literal that the
+    run-time instruction computes for the same operands (reference: the IEEE double result of the C library function, which
+    is what the instruction computes), to 15 significant digits, including results of very small and very large magnitude."""
+    import math
+    import random
+    import time
+
+    from pyvc.report import HELD, VIOLATED, Ob
+    from spec.ic10_machine import parse_number
+    from stationeers_pytrapic.compiler import CompileOptions, compile_code
+
+    t0 = time.time()
+    rnd = random.Random(seed)
+    h = "from stationeers_pytrapic.symbols import *\n"
+    one = {"sin": math.sin, "cos": math.cos, "tan": math.tan, "asin": math.asin, "acos": math.acos, "atan": math.atan, "sqrt": math.sqrt, "log": math.log, "exp": math.exp}
+    args = [0.5, 1, 2, 3.25, 1e-7, 5e-13, 1e-25, 1e-300, 30, 700, -30, -700, -0.75, 1e6, math.pi, math.pi / 2, 0.9999999999]
+    args += [rnd.uniform(-40, 40) for _ in range(20 if tier == "quick" else 400)] + [10 ** rnd.uniform(-30, 3) for _ in range(20 if tier == "quick" else 400)]
+    bad, n = None, 0
+    cases = [(f, (a,)) for f in one for a in args] + [("atan2", (a, b)) for a in args[:12] for b in (1, -2.5, 1e-20, 1e12)]
+    for f, xs in cases:
+        try:
+            want = one[f](*xs) if f != "atan2" else math.atan2(*xs)
+        except (ValueError, OverflowError):
+            continue
+        if want != want or abs(want) == math.inf:
+            continue
+        src = h + f"db.Setting = {f}({', '.join(repr(x) for x in xs)})\n"
+        r = compile_code(src, CompileOptions(append_version=False))
+        if "code" not in r:
+            continue
+        lines = [l.split() for l in r["code"].split("\n") if l.strip()]
+        if len(lines) != 1 or lines[0][:3] != ["s", "db", "Setting"]:
+            continue  # not folded: the instruction is emitted and computes the value at run time
+        n += 1
+        got = parse_number(lines[0][3])
+        if got is None or not (got == want or abs(got - want) <= 1e-14 * abs(want)):
+            bad = (src, lines[0][3], want)
+            break
+    ob = Ob("utils.is_constant#folded_math_function_equals_the_instruction", HELD if not bad else VIOLATED, kind="bounded", backend="native", target="utils.is_constant",
+            bound=f"{n} folded calls of 10 math functions on constant operands (fixed boundary operands + random ones, results from 1e-300 to 1e300)", time_s=time.time() - t0)
+    if bad:
+        ob.witness, ob.replayed = {"sources": bad[0], "options": {"append_version": False}}, True
+        ob.detail["observed"] = f"folded to {bad[1]}, the instruction computes {bad[2]!r}"
+    rep.add(ob)
+
+
 def run(tier, seed):
     rep = Report("C03", tier, seed, level="proof")
     from contracts.tokens_c import token_contracts
@@ -13,6 +61,7 @@ def run(tier, seed):
     cs += [c for c in token_contracts() if c.name in ("utils._e", "types.compute_hash{NUMERIC}", "utils.calc_hash", "types._apply_output_mode")]
     # the value clauses belong to C03; the kind clauses are reported by C09
     run_contracts(rep, cs, prop_filter=lambda ob: "#kind_is_number" not in ob.id)
+    math_function_folds(rep, tier, seed)
     rep.trust("spec/ic10_ops.py (IC10 ALU semantics)", "spec/tokens.py, spec/crc32.py (HASH = signed CRC-32)",
               "pyvc encoding of Python floats as IEEE-754 binary64 (z3 FP theory)", "z3 5.1 and cvc5 as decision procedures")
     rep.assume("domain: finite doubles; |v| < 2**53 for bit operations; shift counts 0..63; positive modulus (property C03 quantifier)")
